@@ -415,7 +415,9 @@ def rule_ignore_filter(m, rid):
             sum(1 for x in ast.walk(lp) if isinstance(x, ast.Break)) == 1
         ok = has_both and brk_guard and no_other_exit
     r.ob(ok, "_next: both sources (queue, get_source_item) reach the `not item.isempty(ignore_comments)` test; single exit")
-    if not ok:
+    if not loops:
+        r.error("_next: the item loop was not found (shape changed)")
+    elif not ok:
         r.fail("_next|filter", "_next no longer passes every item (from the queue and from get_source_item) through the single "
                "`not item.isempty(ignore_comments)` exit of its loop", m.loc(nx))
     k = m.key("Comment", RF)
@@ -480,6 +482,9 @@ def rule_semicolon(m, rid):
             order.append((c.lineno, c.col_offset, t))
     order.sort()
     names = [t for _, _, t in order]
+    if not names:
+        r.error("_next: neither extract_label nor extract_construct_name is called (the ';' splitter changed shape)")
+        return r
     ok = names == ["extract_label", "extract_construct_name"]
     # data dependence: the argument of extract_construct_name is the line returned by extract_label
     if ok:
@@ -497,6 +502,12 @@ def rule_semicolon(m, rid):
     copies = [c for c in A.calls(nx.node) if isinstance(c.func, ast.Attribute) and c.func.attr == "copy"]
     ok = bool(lines) and all("apply_map(" in A.text(c.args[0]) for c in lines) and \
         all(any(k.arg == "apply_map" and A.const(k.value) is True for k in c.keywords) for c in copies)
+    if ok:
+        ok = all(len(c.args) >= 5 and A.text(c.args[1]).endswith(".span") and A.text(c.args[4]).endswith(".reader") for c in lines)
+        if not ok:
+            r.ob(False)
+            r.fail("_next|span", "_next builds the Line of a ';' part without the span/reader of the original item: its line numbers are lost", m.loc(nx))
+            return r
     r.ob(ok, "_next: every part goes through apply_map before a Line is built (%d Line(), %d copy())" % (len(lines), len(copies)))
     if not ok:
         r.fail("_next|apply_map", "_next builds a Line for a ';' part without undoing the replace map: placeholders of literals "
